@@ -7,7 +7,7 @@
    its result is (state afterwards, the log of user bodies run, outcome Ok | ErrType | ErrBoom).
    The theorems hold for every outcome, including the failing ones. *)
 From Coq Require Import ZArith List Bool.
-From Mesa Require Import Model.StepCounter Proofs.StepCounterProofs.
+From Mesa Require Import Generated.Tables Model.StepCounter Proofs.StepCounterProofs.
 Import ListNotations.
 Open Scope Z_scope.
 
@@ -114,6 +114,15 @@ Theorem C05_steps_count_calls : forall ops w i x h,
              steps (i_st x') = steps (i_st x) + Z.of_nat (length (filter (is_step_at i) ops)).
 Proof. exact steps_count_calls. Qed.
 Print Assumptions C05_steps_count_calls.
+
+(* T1: the shape of the source the model transcribes, re-read from the source on this run:
+   __init__ binds _user_step to self.step and then shadows step on the instance; _wrapped_step is
+   `self.steps += 1` followed by `self._user_step( *args, **kwargs)`; run_model is `while self.running: self.step()`;
+   Model.step is empty *)
+Theorem C05_source_shape :
+  gen_wrapped_step_order = [WIncr; WCall] /\ gen_run_model_loop = [RMWhileRunning; RMStep].
+Proof. exact (conj eq_refl eq_refl). Qed.
+Print Assumptions C05_source_shape.
 
 (* ---------- non-vacuity ---------- *)
 (* depth 4: level 0 does not define step, level 1 overrides it with two parameters and calls super forwarding
